@@ -30,7 +30,7 @@ class Tokenizer:
     # a hex escape, or any other escaped character (kept as it is, so that the
     # second backslash of an escaped backslash never starts a new escape)
     unicodesub = re.compile(
-        r'\\(?:[0-9a-fA-F]{1,6}(?:\r\n|[\t\r\n\f\x20])?|[^0-9a-fA-F])'
+        r'\\(?:\r\n|[0-9a-fA-F]{1,6}(?:\r\n|[\t\r\n\f\x20])?|[^0-9a-fA-F])'
     ).sub
     cleanstring = re.compile(r'\\((\r\n)|[\n\r\f])').sub
 
@@ -121,6 +121,12 @@ class Tokenizer:
                 return chr(num)
             else:
                 return m.group(0)
+
+        def _replstring(m):
+            "used by unicodesub for strings: also removes \\ followed by nl"
+            if m.group(0)[1] in '\n\r\f':
+                return ''
+            return _repl(m)
 
         def _normalize(value):
             "normalize and do unicodesub"
@@ -226,12 +232,12 @@ class Tokenizer:
                         ):
                             # may contain unicode escape, replace with normal
                             # char but do not _normalize (?)
-                            value = found
                             if name in ('STRING', 'INVALID'):  # 'URI'?
-                                # remove \ followed by nl (so escaped) from string,
-                                # before a hex escape can produce a new nl
-                                value = self.cleanstring('', value)
-                            value = self.unicodesub(_repl, value)
+                                # also remove \ followed by nl (so escaped)
+                                # from string, in the same left-to-right pass
+                                value = self.unicodesub(_replstring, found)
+                            else:
+                                value = self.unicodesub(_repl, found)
 
                         else:
                             if 'ATKEYWORD' == name:
